@@ -58,6 +58,7 @@ type G struct {
 	vc     VC     // Go memory model clock (race monitor)
 	h      uint64 // Merkle hash of this goroutine's causal history (state cache / canonical trace)
 	nspawn int
+	nobjs  int  // objects created by this goroutine (canonical object ids)
 	low    bool // low priority (see World.LowPriority)
 	must   bool // must finish for the execution to count as terminated
 	steps  int
@@ -118,6 +119,7 @@ type Obj struct {
 	w     *World
 	users map[int]struct{}
 	mask  uint64 // goroutines (dense index < 64) that operated on this object
+	id    uint64 // canonical identity: hash(creating goroutine's canonical id, its creation counter); 0 = unknown
 }
 
 // Event is one scheduling step (kept only in record mode).
@@ -189,9 +191,12 @@ type World struct {
 	preempts int
 	swPairs  [][2]int16 // context switches (from, to) in the exploring phase
 
-	nobj    int
-	netReg  map[string]any
-	NetPort int
+	nobj     int
+	LazyObjs int
+	sleep    []sleepEntry // sleep set of the execution in progress (explore.go)
+	recs     []recTarget  // footprints being recorded
+	netReg   map[string]any
+	NetPort  int
 
 	altbuf []int32
 	eff    effect
@@ -433,12 +438,6 @@ func (w *World) alts(g *G, out []int32) []int32 {
 	return out
 }
 
-// option is one possible next step at a decision point.
-type option struct {
-	c    Choice
-	cost int8
-}
-
 // schedule picks the next goroutine to run. prev is the goroutine that just parked or finished.
 // It returns (nil, 0) when the execution ended.
 func (w *World) schedule(prev *G) (*G, int32) {
@@ -475,6 +474,10 @@ func (w *World) schedule(prev *G) (*G, int32) {
 		w.Trace = append(w.Trace, Event{Step: w.steps, G: g.name, Op: g.pend.describe(alt, w), Site: g.pend.site, Sw: sw})
 	}
 	w.effectOf(g, alt, &w.eff)
+	if w.exploring {
+		w.endRuns(g)
+		w.recordOp(g, &w.eff)
+	}
 	w.commit(g, &w.eff)
 	g.steps++
 	if w.exploring && prev != nil && prev != g {
@@ -591,8 +594,26 @@ func (w *World) share(g *G, o *Obj) {
 // NewObj registers a synchronisation object with the current execution.
 func NewObj(label string) *Obj {
 	w := Cur()
+	o := &Obj{Label: label, w: w}
+	w.initObj(o)
+	return o
+}
+
+// NewObjLazy registers an object whose creation point is not known (a zero-value sync object initialised at
+// its first use: WHICH goroutine uses it first depends on the schedule, so it has no canonical identity).
+// Operations on it are treated as conflicting with every other operation by the sleep-set reduction.
+func NewObjLazy(label string) *Obj {
+	w := Cur()
 	w.nobj++
+	w.LazyObjs++
 	return &Obj{Label: label, w: w}
+}
+
+func (w *World) initObj(o *Obj) {
+	w.nobj++
+	g := w.cur
+	g.nobjs++
+	o.id = mix(g.id^0x0b1ec7, uint64(g.nobjs)) | 1
 }
 
 // Fresh reports whether o belongs to the current execution (shims re-initialise stale zero-value objects).
